@@ -188,6 +188,9 @@ func (c c20Case) key() string {
 	if c.Kind == "list" {
 		return fmt.Sprintf("%s/k=%d/%s/%s", c.Base, c.K, c.Path, c.Op)
 	}
+	if c.Kind == "list-second" {
+		return fmt.Sprintf("%s/k=%d/second-proof-of-one-chip/%s/%s", c.Base, c.K, c.Path, c.Op)
+	}
 	return fmt.Sprintf("%s/k=%d/config/%v", c.Base, c.K, c.Edit)
 }
 
@@ -217,6 +220,32 @@ func c20Run(c c20Case) (viol, trivial bool, desc string, res eng.Result) {
 			return false, false, "native-only accept", res
 		}
 		return true, false, fmt.Sprintf("%s with list %s altered by %s (template and assignment) is ACCEPTED", in.Name(), c.Path, c.Op), res
+	}
+	if c.Kind == "list-second" {
+		// the shape-altered proof is the second one verified through a VerifierChip that has just verified the
+		// unaltered proof (an aggregation-style circuit): what the chip did before must not relax the shape checks
+		mk := func() (*twoProofs, bool) {
+			h, x := in.Circuit(), in.Circuit()
+			l, ok := findList(x, c.Path)
+			if !ok || !applyShapeOp(l, c.Op) {
+				return nil, false
+			}
+			return &twoProofs{PI1: h.PublicInputs, PI2: x.PublicInputs, P1: h.Proof, P2: x.Proof, VD1: h.VerifierData, VD2: x.VerifierData, CD: in.CD}, true
+		}
+		tmpl, ok1 := mk()
+		asg, ok2 := mk()
+		if !ok1 || !ok2 {
+			return false, true, "", res
+		}
+		res = eng.Run(tmpl, asg, eng.Options{Mode: eng.ModeNative})
+		if res.Outcome != eng.Accept {
+			return false, false, "", res
+		}
+		mk2 := func() *twoProofs { x, _ := mk(); return x }
+		if r2 := eng.Run(mk2(), mk2(), eng.Options{Mode: eng.ModePlain}); r2.Outcome != eng.Accept {
+			return false, false, "native-only accept", res
+		}
+		return true, false, fmt.Sprintf("%s with list %s altered by %s (template and assignment) is ACCEPTED when it is verified through a VerifierChip that verified the unaltered proof first", in.Name(), c.Path, c.Op), res
 	}
 	// configuration edit(s) against the unchanged proof
 	doc := loadGeneric(corp.Path(c.Base, "common_data.json"))
@@ -267,7 +296,7 @@ func c20ConfigEdits() [][]cdEdit {
 func TestC20(t *testing.T) {
 	r := rec.New("C20")
 	defer r.Flush()
-	r.Rule("(a) every slice reachable in the circuit value (reflect walk: caps, opening lists by kind, query rounds, eval proofs, leaf elements, siblings, steps, evals, final-poly coefficients, public inputs, key cap; ~40 list kinds, per kind the first, a middle and the last query round) x {drop first, drop last, duplicate last, append zero element, empty}, applied to template and assignment together (gnark fixes shapes at build time), on corpus proofs (quick: A1 full and B2/k=3; thorough: all five, full); (b) coherent configuration edits (rate bits, cap height, query rounds in both copies and in either copy alone, degree bits, each reduction arity) +-1 against the unchanged proof, labelled by the reference verifier.  Oracle: outcome in {REFUSED, REJECT}, never ACCEPT.  Trivial = operation not applicable (empty list) or configuration edit the reference accepts; distinct = (instance, list path, op).")
+	r.Rule("(a) every slice reachable in the circuit value (reflect walk: caps, opening lists by kind, query rounds, eval proofs, leaf elements, siblings, steps, evals, final-poly coefficients, public inputs, key cap; ~40 list kinds, per kind the first, a middle and the last query round) x {drop first, drop last, duplicate last, append zero element, empty}, applied to template and assignment together (gnark fixes shapes at build time), on corpus proofs (quick: A1 full and B2/k=3; thorough: all five, full); (b) coherent configuration edits (rate bits, cap height, query rounds in both copies and in either copy alone, degree bits, each reduction arity) +-1 against the unchanged proof, labelled by the reference verifier; (c) per list kind 'duplicate last' and one rotating operation (thorough: all five) applied to the second of two proofs verified through one VerifierChip (the first, unaltered, proof has just been verified by it; 1-round prefix instances).  Oracle: outcome in {REFUSED, REJECT}, never ACCEPT.  Trivial = operation not applicable (empty list) or configuration edit the reference accepts; distinct = (instance, list path, op).")
 	r.Assume("proof-of-work bits and single-copy edits of fields the verifier reads from one copy only are not 'shape' changes and are not generated")
 
 	var rp c20Case
@@ -343,6 +372,24 @@ func TestC20(t *testing.T) {
 					exec(c20Case{Base: base, K: k, Kind: "list", Path: l.Path, Op: op}, "list/"+shortKind(kd)+"/"+op)
 				}
 			}
+			// one operation per list kind (rotating) on the second proof of a shared chip, on a short prefix instance
+			item++
+			if rec.Mine(item) {
+				l2s := byKind2(base, 1)[kd]
+				if len(l2s) > 0 {
+					ops := []string{"duplast", c20Ops[item%len(c20Ops)]}
+					if rec.Thorough() {
+						ops = c20Ops
+					}
+					seen := map[string]bool{}
+					for _, op := range ops {
+						if !seen[op] {
+							seen[op] = true
+							exec(c20Case{Base: base, K: 1, Kind: "list-second", Path: l2s[len(l2s)-1].Path, Op: op}, "second-proof-of-one-chip/"+shortKind(kd)+"/"+op)
+						}
+					}
+				}
+			}
 		}
 		for _, es := range c20ConfigEdits() {
 			item++
@@ -355,6 +402,15 @@ func TestC20(t *testing.T) {
 	r.Extra("list_kinds", fmt.Sprint(len(kinds)))
 	r.Extra("verdicts", verdicts)
 	r.Done()
+}
+
+// byKind2: the lists of the k-round prefix instance, by kind
+func byKind2(base string, k int) map[string][]listRef {
+	m := map[string][]listRef{}
+	for _, l := range collectLists(wv.Load(base, k).Circuit()) {
+		m[l.Kind] = append(m[l.Kind], l)
+	}
+	return m
 }
 
 func shortKind(k string) string {
